@@ -169,7 +169,7 @@ def run_sign(chk):
             ("l17", test, True, "sign:lindell17", 2 if q else 5),
             ("l22", plain, False, "sign:lindell22", 2 if q else 3),
             ("bls", plain, False, "sign:bls", 3 if q else 4),
-            ("cggmp", plain, False, "sign:cggmp21", 2 if q else 6)]
+            ("cggmp", test, True, "sign:cggmp21", 2 if q else 6)]
     tasks = []
     for cfg in (SA_QUICK if q else SA_THOROUGH):
         tasks.append(("mc:" + cfg, (lambda cfg=cfg: vlib.tlc(SPEC, "SignAlgebraMC", cfg, workers=2 if q else 3, timeout=3400, deadlock=True))))
